@@ -14,3 +14,6 @@ pub broadcast axiom fn axiom_into_iter_items_array<'a, const N: usize>(s: &'a [u
 pub assume_specification<'a, T, A, I> [<std::vec::Vec<T, A> as std::iter::Extend<&'a T>>::extend] (v: &mut std::vec::Vec<T, A>, i: I)
     where A: std::alloc::Allocator, I: std::iter::IntoIterator<Item = &'a T>, T: std::marker::Copy + 'a,
     ensures final(v)@ == old(v)@ + spec_into_iter_items::<T, I>(i);
+// TRUSTED AXIOM (core): a slice never has more than isize::MAX elements (Rust allocation rule).
+pub broadcast axiom fn axiom_slice_len_bound(s: &[u8])
+    ensures #[trigger] s@.len() <= 0x7fff_ffff_ffff_ffff;
